@@ -30,6 +30,10 @@ SCRATCH = os.path.abspath(REPO) != "/repo"          # checking a scratch copy: k
 BUILD = os.environ.get("VERIF_BUILD") or (
     os.path.join(VERIF, "build") if os.path.abspath(REPO) == "/repo"
     else os.path.join("/tmp", "verif-build-" + hashlib.sha1(os.path.abspath(REPO).encode()).hexdigest()[:8]))
+if SCRATCH:
+    # a scratch repository gets its own copy of the Coq development (generated files differ per repository)
+    COQ = os.path.join(BUILD, "coq")
+os.environ["VERIF_COQ"] = COQ
 GOENV = dict(os.environ, GOFLAGS="-mod=mod", GOPROXY="off", GOSUMDB="off", GOTOOLCHAIN="local",
              CGO_ENABLED=os.environ.get("CGO_ENABLED", "1"))
 
@@ -56,7 +60,10 @@ def sh(cmd, cwd=None, timeout=None, env=None, stdin=None):
 class Lock:
     def __init__(self, name):
         os.makedirs(BUILD, exist_ok=True)
-        self.path = os.path.join(BUILD, name + ".lock")
+        base = BUILD
+        if name == "coq" and not SCRATCH:
+            base = os.path.join(VERIF, "build")
+        self.path = os.path.join(base, name + ".lock")
 
     def __enter__(self):
         self.f = open(self.path, "w")
@@ -122,8 +129,30 @@ def grep_gate():
     return bad
 
 
+_synced = False
+
+
+def sync_scratch_coq():
+    """scratch runs: copy /verif/coq (sources and compiled files) once per process into BUILD/coq."""
+    global _synced
+    if SCRATCH and not _synced:
+        os.makedirs(COQ, exist_ok=True)
+        with Lock("coq"):
+            sh(["rsync", "-a", "--delete", "--exclude", "gen/", os.path.join(VERIF, "coq") + "/", COQ + "/"], timeout=600)
+            if not os.path.isdir(os.path.join(COQ, "gen")):
+                sh(["rsync", "-a", os.path.join(VERIF, "coq", "gen") + "/", os.path.join(COQ, "gen") + "/"], timeout=600)
+            # Makefile.conf records absolute paths: regenerate
+            for f in ("Makefile", "Makefile.conf", "_CoqProject", ".Makefile.d"):
+                try:
+                    os.remove(os.path.join(COQ, f))
+                except OSError:
+                    pass
+        _synced = True
+
+
 def coq_build(targets, timeout=1500):
     """make the given .vo targets (relative to coq/). Returns (ok, log)."""
+    sync_scratch_coq()
     with Lock("coq"):
         rc, out = sh([os.path.join(VERIF, "bin", "mkcoq.sh")], timeout=120)
         if rc != 0:
@@ -358,6 +387,7 @@ def standard_check(cfg, argv):
     rep = Report(prop, tier, seed)
     n = cfg["n_thorough"] if tier == "thorough" else cfg["n_quick"]
 
+    sync_scratch_coq()
     gate = grep_gate()
     if gate:
         rep.violation({"kind": "trusted-base-gate", "broken": "forbidden construct in the Coq development",
